@@ -1089,7 +1089,10 @@ func recursionDescends(p *Program, f *ssa.Function) (bool, string) {
 			return true, fmt.Sprintf("parameter %s strictly decreases (unsigned, guarded by a non-zero test) on all %d recursive calls", pa.Name(), len(calls))
 		}
 		if allSub {
-			return true, fmt.Sprintf("every recursive call receives a strict sub-term of parameter %s (element of a finite tree)", pa.Name())
+			if ok, why := visitsOnce(f, calls, i); !ok {
+				return false, why
+			}
+			return true, fmt.Sprintf("every recursive call receives a strict sub-term of parameter %s (element of a finite tree), each element at most once per path", pa.Name())
 		}
 	}
 	return false, "no parameter decreases on every recursive call"
@@ -1142,9 +1145,85 @@ func isSubTermOf(v ssa.Value, pa *ssa.Parameter, steps int) bool {
 		case *ssa.Index:
 			v = x.X
 			steps++
+		case *ssa.Slice:
+			v = x.X // a window of the same container: not a descent by itself
+		case *ssa.Range:
+			v = x.X
 		default:
 			return false
 		}
 	}
 	return false
+}
+
+// elementDef returns, for a sub-term argument, the instruction that fetched the
+// element from its container (the Next of a range, an IndexAddr, a Lookup).
+func elementDef(v ssa.Value) ssa.Instruction {
+	for d := 0; d < 16; d++ {
+		switch x := v.(type) {
+		case *ssa.TypeAssert:
+			v = x.X
+		case *ssa.Extract:
+			switch t := x.Tuple.(type) {
+			case *ssa.TypeAssert:
+				v = t.X
+			case *ssa.Next:
+				return t
+			case *ssa.Lookup:
+				return t
+			default:
+				return nil
+			}
+		case *ssa.MakeInterface:
+			v = x.X
+		case *ssa.ChangeInterface:
+			v = x.X
+		case *ssa.UnOp:
+			if ia, ok := x.X.(*ssa.IndexAddr); ok {
+				return ia
+			}
+			return nil
+		case *ssa.Lookup:
+			return x
+		case *ssa.Index:
+			return x
+		default:
+			return nil
+		}
+	}
+	return nil
+}
+
+// visitsOnce: in a recursion over sub-terms, no element can be handed to two
+// recursive calls on one path (otherwise the work doubles per nesting level).
+func visitsOnce(f *ssa.Function, calls []*ssa.Call, argIdx int) (bool, string) {
+	for _, c1 := range calls {
+		for _, c2 := range calls {
+			if c1 == c2 {
+				continue
+			}
+			d1, d2 := elementDef(c1.Call.Args[argIdx]), elementDef(c2.Call.Args[argIdx])
+			if d1 == nil || d2 == nil {
+				continue
+			}
+			if d1 == d2 {
+				// same element: c2 must not be reachable from c1 without fetching a new element
+				avoid := map[*ssa.BasicBlock]bool{d1.Block(): true}
+				if c1.Block() == c2.Block() {
+					return false, "two recursive calls on the same element in one block"
+				}
+				for _, s := range c1.Block().Succs {
+					if reachableFrom(s, avoid)[c2.Block()] {
+						return false, "the same element can be passed to two recursive calls (" + exprString(c1.Call.Args[argIdx]) + ")"
+					}
+				}
+				continue
+			}
+			// different fetches (different loops over the container): the two sites must be mutually exclusive
+			if reachableFrom(c1.Block(), nil)[c2.Block()] {
+				return false, "two traversals of the same container both recurse on one path: elements are visited more than once, so time grows exponentially with nesting depth"
+			}
+		}
+	}
+	return true, ""
 }
